@@ -22,6 +22,8 @@ RULE = (
     "FlatEphysReader over files of those sizes (chunk length set through sample_rate=c/600; file names in ascending, descending or "
     "run_8/run_9/run_10 order); (gcb-large) chunk lengths of hundreds of samples with file sizes "
     "just above a multiple of the chunk length; "
+    "(gcb-rate) readers over sparse files of 30+ minutes at sampling rates for which 600 s is not a "
+    "whole number of samples (29999.954 Hz, ...); get_excerpts also on 2-D and 3-D data; "
     "(cbin) mtscomp-compressed readers over n x chunk length x n_threads{1,2,3,5} x cache on/off. "
     "Oracle: row-set semantics on arange(n) (kept rows concatenate to arange(n), kept rows are a "
     "subset of the chunk's rows, chunk rows <= chunk size), monotone/boundary/gap predicates for "
@@ -67,6 +69,16 @@ def _gcb_large_cases(th):
                 yield {'k': 'gcb', 'sizes': [q * cs + r, 5, cs], 'cs': cs, 'large': True}
 
 
+def _gcb_rate_cases(th):
+    # real sampling rates: 600 s x rate is not a whole number of samples; recordings of 30+ minutes
+    # (sparse files) so that there are >= 3 regular chunks
+    for rate in ([29999.954, 30000.0004] if not th else
+                 [29999.954, 30000.0004, 24414.0625, 2500.0007, 30000.0012, 19999.9993, 32051.28]):
+        L = 600.0 * rate
+        for sizes in ([int(3.2 * L)], [int(1.5 * L), int(2.3 * L) + 7]):
+            yield {'k': 'gcb-rate', 'sizes': sizes, 'rate': rate}
+
+
 def _cbin_cases(N, thorough):
     ns = range(1, N + 1)
     for n in ns:
@@ -93,6 +105,9 @@ def drivers(tier):
         dict(kind='enum', name='gcb-large', exhaustive=False,
              bound='chunk lengths 200/600 (thorough: 100-1000), file sizes q*chunk + 0..7',
              cases=lambda: _gcb_large_cases(th)),
+        dict(kind='enum', name='gcb-rate', exhaustive=False,
+             bound='sampling rates with a fractional number of samples per 600 s, 30+ minutes',
+             cases=lambda: _gcb_rate_cases(th)),
         dict(kind='enum', name='cbin', exhaustive=True, bound='n<=%d' % (40 if th else 16),
              cases=lambda: _cbin_cases(40 if th else 16, th)),
     ]
@@ -151,6 +166,15 @@ def _check_ex(case):
             exp = np.concatenate([data[a:b] for a, b in exs]) if exs else data[:0]
             require(np.array_equal(out, exp), 'get_excerpts differs from excerpts()',
                     key='ex-consistent', observed=out, expected=exp)
+    # the data may have more dimensions (samples x channels): whole rows are excerpted
+    for extra in ((2,), (3, 2)):
+        dn = (np.arange(n).reshape((n,) + (1,) * len(extra)) * 7 +
+              np.arange(int(np.prod(extra))).reshape(extra))
+        outn = must_return('get_excerpts(%d-D data)' % dn.ndim, get_excerpts, dn, n_excerpts=ne,
+                           excerpt_size=es)
+        require(np.array_equal(np.asarray(outn), dn[np.asarray(out, dtype=np.int64)]),
+                'get_excerpts(%d-D data) are not the rows excerpted from 1-D data' % dn.ndim,
+                key='ex-rows-nd', observed=outn, expected=dn[np.asarray(out, dtype=np.int64)])
     return exs
 
 
@@ -223,6 +247,27 @@ def _check_gcb(case):
     return b
 
 
+def _check_gcb_rate(case):
+    sizes, rate = case['sizes'], case['rate']
+    cs = int(round(600.0 * rate))       # the chunk length: 600 s in whole samples
+    with env.scratch() as d:
+        paths = []
+        for k, sz in enumerate(sizes):
+            p = d / ('raw%d.dat' % k)
+            with open(p, 'wb') as f:
+                f.truncate(2 * sz)      # sparse: nothing is written or read
+            paths.append(p)
+        r = must_return('get_ephys_reader', get_ephys_reader, paths, n_channels=1, dtype=np.int16,
+                        sample_rate=rate)
+        try:
+            _bounds_predicates(r.chunk_bounds, sizes, cs, 'reader-chunk_bounds')
+            _iter_predicates(r, sum(sizes), 'iter_chunks')
+        finally:
+            for m in getattr(r, '_mmaps', []):
+                m._mmap.close()
+    return None
+
+
 def _check_cbin(case):
     import mtscomp
     n, c, nt, cache = case['n'], case['c'], case['nt'], case['cache']
@@ -248,6 +293,8 @@ def check(case):
         return _check_ex(case)
     if k == 'gcb':
         return _check_gcb(case)
+    if k == 'gcb-rate':
+        return _check_gcb_rate(case)
     if k == 'cbin':
         return _check_cbin(case)
     raise ValueError(k)
@@ -287,6 +334,9 @@ def classify(case, info):
         if any(s % case['cs'] for s in case['sizes']) and len(case['sizes']) > 1:
             labels.append('gcb:ragged-file')
             nt = True
+    elif k == 'gcb-rate':
+        labels.append('gcb-rate:fractional-samples-per-chunk')
+        nt = True
     elif k == 'cbin':
         nchunks = -(-case['n'] // case['c'])
         if case['nt'] == 1:
